@@ -191,6 +191,12 @@ func (f *stubField) Options() index.FieldIndexingOptions {
 	if f.fi.DV {
 		o |= index.DocValues
 	}
+	// Whether occurrences carry locations is decided by the tokens (a composite field gets its sources'
+	// locations whatever its own options say); the term-vector option is a free input that must not matter.
+	// It is derived from the instance so that a re-run sees the same options.
+	if (len(f.fi.Name)+len(f.fi.Toks)+f.fi.Len)%2 == 1 {
+		o |= index.IncludeTermVectors
+	}
 	return o
 }
 
